@@ -402,6 +402,13 @@ func (s *Store[K, V]) setShardWithoutLock(shard *Shard[K, V], hash uint64, key K
 		if old != expire {
 			result.reschedule = true
 		}
+	} else if ok {
+		// a Set without TTL over a value that has already expired creates a
+		// fresh value without deadline; a deadline still running is kept
+		if old := exist.expire.Load(); old != 0 && old <= s.timerwheel.clock.NowNano() {
+			exist.expire.Store(0)
+			result.reschedule = true
+		}
 	}
 
 	if ok {
@@ -567,7 +574,7 @@ func (s *Store[K, V]) removeEntry(entry *Entry[K, V], reason RemoveReason) {
 		// entry might updated already
 		// update expire filed are protected by shard mutex
 		verifPoint(vpExpireRecheck)
-		if entry.expire.Load() > s.timerwheel.clock.NowNano() {
+		if expire := entry.expire.Load(); expire == 0 || expire > s.timerwheel.clock.NowNano() {
 			return
 		}
 	}
@@ -702,7 +709,12 @@ func (s *Store[K, V]) sinkWrite(item WriteBufItem[K, V]) {
 		entry.policyWeight += item.costChange
 
 		if item.rechedule {
-			s.timerwheel.schedule(entry)
+			if entry.expire.Load() != 0 {
+				s.timerwheel.schedule(entry)
+			} else if entry.meta.wheelPrev != nil {
+				// deadline cleared: take the entry off the timer wheel
+				s.timerwheel.deschedule(entry)
+			}
 		}
 
 		// create/update race
